@@ -46,9 +46,9 @@ def configs(ctx):
     w1 = c01.configs(Q)
     src += w1 if not quick else w1[::2]
     w2 = [w for w in c02.configs(Q) if not w["tag"].startswith("P7")]
-    src += w2[::(3 if quick else 1)]
+    src += w2[::(4 if quick else 1)]
     w3 = c03.configs(Q)
-    src += w3[::(2 if quick else 1)]
+    src += w3[::(3 if quick else 1)]
     for w in src:
         cfg = dict(w)
         if w["tag"].startswith("ACC/"):
